@@ -290,6 +290,15 @@ static int vd_touch(vf_result *r, const vnadata_t *v, const char *who)
 		"input \"%s\"", who, type, rows, cols, nf, g_inesc);
 	return 0;
     }
+    /* what the getters of the settings say is what their setters take */
+    if (vnadata_get_fprecision(v) < 1 || vnadata_get_dprecision(v) < 1) {
+	vf_fail(r, "settings:vnadata", "%s: object has fprecision %d and "
+		"dprecision %d; vnadata_set_fprecision / _dprecision take no "
+		"value below 1 (vnadata_convert into another object then "
+		"fails); input \"%s\"", who, vnadata_get_fprecision(v),
+		vnadata_get_dprecision(v), g_inesc);
+	return 0;
+    }
     int ports = rows > cols ? rows : cols;
     for (int f = 0; f < nf; ++f) {
 	sink += vnadata_get_frequency(v, f);
